@@ -1,15 +1,15 @@
 #!/bin/bash
 # usage: tools/seedmatrix.sh [seed-dir-name ...]  — run each seeded change's property check on a private mutated copy
-# and print one line per seed: CAUGHT(<n> concrete) | CAUGHT-no-input | MISSED
+# (SEEDJOBS of them at a time) and print one line per seed: CAUGHT(<n> concrete) | CAUGHT-no-input | MISSED
 cd /verif
-out=/var/tmp/seedmatrix; mkdir -p $out
+mkdir -p /var/tmp/seedmatrix
 names="$@"; [ -z "$names" ] && names=$(ls seeded | grep -v '^_')
-for n in $names; do
-  pid=${n%%-*}
-  ( bin/mutcheck $pid /verif/seeded/$n/patch.diff 400 > $out/$n.log 2>&1
-    v=$(grep -c '^VIOLATION' $out/$n.log); nf=$(grep -c 'no-failing-input-found' $out/$n.log)
-    if [ "$v" = 0 ]; then r=MISSED; elif [ "$v" = "$nf" ]; then r=CAUGHT-no-input; else r="CAUGHT($((v-nf)) concrete)"; fi
-    echo "$n $r $(tail -1 $out/$n.log)" ) &
-  while [ $(jobs -r | wc -l) -ge ${SEEDJOBS:-4} ]; do sleep 1; done
-done
-wait
+one() {
+  n=$1; pid=${n%%-*}; out=/var/tmp/seedmatrix
+  bin/mutcheck $pid /verif/seeded/$n/patch.diff 400 > $out/$n.log 2>&1
+  v=$(grep -c '^VIOLATION' $out/$n.log); nf=$(grep -c 'no-failing-input-found' $out/$n.log)
+  if [ "$v" = 0 ]; then r=MISSED; elif [ "$v" = "$nf" ]; then r=CAUGHT-no-input; else r="CAUGHT($((v-nf)) concrete)"; fi
+  echo "$n $r $(tail -1 $out/$n.log)"
+}
+export -f one
+printf '%s\n' $names | xargs -P ${SEEDJOBS:-4} -I{} bash -c 'one {}'
